@@ -326,7 +326,23 @@ pub fn extra_stages(prop: &str, tier: Tier, seed: u64, _scratch: &Path) -> Extra
     crate::miri::run_miri_tier(prop, seed, segments, jobs)
 }
 
-/// Predicates naming open known findings (see known_findings.json). None are open.
-pub fn finding_matches(_signature: &str, _world: &str, _case: &Value, _v: &Violation) -> bool {
-    false
+/// Signature of an OPEN known finding (known_findings.json): a `;`-separated list of `key=value`
+/// conditions over the minimised violation, all of which must hold:
+///   world=<world name>            class=<violation class>
+///   case_contains=<substring of the minimised case's JSON>   (may be repeated)
+///   detail_contains=<substring of the violation detail>
+/// A violation of the same property that does not match every condition is still reported.
+/// (No finding is open at present; both defects found were repaired.)
+pub fn finding_matches(signature: &str, world: &str, case: &Value, v: &Violation) -> bool {
+    if signature.trim().is_empty() {
+        return false;
+    }
+    let case_json = serde_json::to_string(case).unwrap_or_default();
+    signature.split(';').map(|c| c.trim()).filter(|c| !c.is_empty()).all(|cond| match cond.split_once('=') {
+        Some(("world", w)) => world == w,
+        Some(("class", c)) => v.class == c,
+        Some(("case_contains", x)) => case_json.contains(x),
+        Some(("detail_contains", x)) => v.detail.contains(x),
+        _ => false,
+    })
 }
